@@ -157,6 +157,22 @@ CHECKS["C20"] = dict(technique="TLA+ decision table (Platform.tla) checked by TL
           "imported in per-platform subprocesses over generated stub native modules with fault injection at the k-th native call."),
     note="Trusted base: TLC; the platform stubs and the slot tables transcribed from the C sources (native C of those platforms is not executed). Three signed findings (NetBSD cmdline EINVAL, SunOS unlisted PID 0 x2).")
 
+CHECKS["C08"] = dict(technique=FN, category="model_checking", ref="DESIGN.md section 3 C08",
+    text=("MemInfo.tla: meminfo field subsets x 9 magnitude patterns, zoneinfo present/absent with low watermarks, vmstat "
+          "forms and sysinfo -> virtual_memory/swap_memory in bytes, percent as exact rational, the set of metrics the warning "
+          "must name; 11 invariants (available and percent in range whenever free <= total, warned metrics are zero, swap "
+          "conservation) over 39k (thorough 265k) inputs; 52k-531k cases replayed through the real API at scales up to 2^64/145 "
+          "with warnings recorded; 6k-40k random records judged by TLC; 39 rule branches guarded against vacuity."),
+    note=TB)
+CHECKS["C11"] = dict(technique=FN, category="model_checking", ref="DESIGN.md section 3 C11",
+    text=("NetConn.tla: socket tables (<= 3, thorough 4 sockets; 9 addresses x 3 ports, all 11 TCP states, TCP/UDP/UNIX "
+          "stream/dgram/seqpacket, 5-8 UNIX names incl. abstract and with spaces), holder relation over 2 PIDs x 2 fds, 13-15 "
+          "kind strings, system-wide and per-process forms -> one expectation group per selected socket with an acceptance "
+          "relation (any holder for shared inet sockets, one row per holder for UNIX); 9 invariants (kind lattice, every socket "
+          "once, per-process = projection); 28k-186k inputs replayed over rendered /proc/net/* and fd symlinks; 3k-20k random "
+          "records and 36 live-kernel records (13 real loopback sockets shared with a child) judged by TLC."),
+    note=TB)
+
 PENDING = "check under construction in this round (see DESIGN.md section 6 work order)"
 NA = {}
 
